@@ -128,24 +128,7 @@ Proof. exact call_convert_idem. Qed.
 
 (* the full clause fails: a second Convert keeps the first converted error *)
 Theorem C06_convert_fwd_refuted : ~ C06_convert_fwd_full_statement.
-Proof.
-  intros H.
-  pose proof double_convert_not_recorded as D.
-  destruct (call base_wiring panic_store (VG 0) MConvert (mkA [] [] [] e_one [] 0 [109%N]))
-    as [[st1 r1]|] eqn:C1; [|contradiction].
-  destruct (call base_wiring st1 r1 MConvert (mkA [] [] [] e_two [] 1 [109%N]))
-    as [[st2 r2]|] eqn:C2; [|contradiction].
-  destruct D as [D _].
-  assert (W0 : wf panic_store).
-  { apply pool_wf. repeat constructor; simpl; try reflexivity. intros x Hx; discriminate. }
-  assert (A1 : admissible panic_store (a_err (mkA [] [] [] e_one [] 0 [109%N]))).
-  { right; right. exists 1%N, true, 1%N, VNil. split; reflexivity. }
-  destruct (call_wf base_wiring _ _ _ _ _ _ base_wiring_guarded W0 A1 C1) as [W1 [[k G1] _]].
-  assert (Hw : w_serr (wt_of base_wiring r1 MConvert) = EErr) by (destruct r1; reflexivity).
-  specialize (H base_wiring st1 r1 MConvert _ st2 r2 k 1%N 2%N VNil base_wiring_guarded W1 G1 Hw
-                eq_refl eq_refl C2).
-  unfold e_two in D. rewrite D in H. discriminate.
-Qed.
+Proof. exact convert_fwd_full_refuted. Qed.
 
 (* ---- none of these calls panics, for any source and any target ---- *)
 Theorem C06_no_panic : forall st va vb,
@@ -155,19 +138,7 @@ Proof. exact errors_is_total. Qed.
 (* the pinned code did: Convert of a slice-typed error, then errors.Is(result, that error) *)
 Theorem C06_no_panic_orig_refuted :
   exists st va vb, wf st /\ admissible st va /\ admissible st vb /\ errors_is_orig st va vb = Panic.
-Proof.
-  pose proof orig_panics as D.
-  destruct (call base_wiring panic_store (VG 0) MConvert panic_args) as [[st' r]|] eqn:C;
-    [|contradiction].
-  destruct D as [D _].
-  assert (W0 : wf panic_store).
-  { apply pool_wf. repeat constructor; simpl; try reflexivity. intros x Hx; discriminate. }
-  assert (A1 : admissible panic_store (a_err panic_args)).
-  { right; right. exists 4%N, false, 5%N, VNil. split; reflexivity. }
-  destruct (call_wf base_wiring _ _ _ _ _ _ base_wiring_guarded W0 A1 C) as [W1 [[k G1] _]].
-  exists st', r, slice_err. repeat split; [exact W1|right; left; eauto| |exact D].
-  right; right. exists 4%N, false, 5%N, VNil. split; reflexivity.
-Qed.
+Proof. exact no_panic_orig_refuted. Qed.
 
 (* observation outside the quantified pool: an extension factory used bare (no FactoryOf) is
    not matched by its own derivations *)
